@@ -14,10 +14,11 @@ THEOREMS = {
     "C15": ["ShipVerif.Hub.C15_op_invariant", "ShipVerif.Hub.C15_variant_invariant", "ShipVerif.Ski.normalize_variant",
             "ShipVerif.Ski.normalize_idem", "ShipVerif.Ski.normalize_canonical", "ShipVerif.Ski.ops_eq"],
     "C18": ["ShipVerif.Hub.C18_notifications_converge", "ShipVerif.Hub.C18_quiescent", "ShipVerif.Hub.C18_fifo", "ShipVerif.Hub.J_step", "ShipVerif.Hub.cs_names"],
-    "C11": ["ShipVerif.Hub.C11_registry"],
+    "C11": ["ShipVerif.Hub.C11_registry", "ShipVerif.Reg.C11_newest_kept", "ShipVerif.Reg.regCfg_is_fixed", "ShipVerif.Reg.rinv_run",
+            "ShipVerif.Reg.C11_two_sections_drop_newer"],
     "C01": ["ShipVerif.Hub.C10_trust_sources", "ShipVerif.Hub.C10_unregister_effect", "ShipVerif.Hub.C10_cancel_effect"],
 }
-IMPORTS = ["ShipVerif.Props.HubProps", "ShipVerif.Props.C15"]
+IMPORTS = ["ShipVerif.Props.HubProps", "ShipVerif.Props.C15", "ShipVerif.Props.C11Reg"]
 ENDED = {14, 15, 16, 17, 39}   # aborted or failed handshakes: the connection closes itself
 
 
@@ -283,7 +284,7 @@ def hub_part(R, pid, tier, seed):
     """runs proofs + engine for the hub half of `pid`; adds violations to R; returns a coverage dict"""
     obligations = THEOREMS[pid]
     changed, err = C.regen_facts()
-    p = C.lake_build(["ShipVerif.Props.HubProps", "ShipVerif.Props.C15", "shipdrv"])
+    p = C.lake_build(["ShipVerif.Props.HubProps", "ShipVerif.Props.C15", "ShipVerif.Props.C11Reg", "shipdrv"])
     lean_ok = p.returncode == 0 and not err
     aud = C.audit(pid + "hub", obligations, IMPORTS) if lean_ok else []
     forb = C.grep_forbidden()
@@ -314,6 +315,19 @@ def hub_part(R, pid, tier, seed):
                     acc += [dict(got[0], first_run_count=len(r[cls]))]
                 else:
                     unconfirmed[cls] = unconfirmed.get(cls, 0) + len(r[cls])
+    if pid == "C11":
+        # the registry under concurrency: a connection's end racing with the registration of its successor
+        fout = os.path.join(d, "regrace_out.txt")
+        nr, nslow = (60000, 60) if tier == "quick" else (600000, 400)
+        q = C.run([C.HARNESS, "regrace", "-n", str(nr), "-slow", str(nslow), "-out", fout], cwd=d, timeout=C.engine_timeout())
+        rl = open(fout).read().splitlines() if os.path.exists(fout) else []
+        rbad = [l for l in rl if l.startswith("BAD")]
+        summ = [l for l in rl if l.startswith("SUMMARY")]
+        cov["registry_race"] = summ[0] if summ else "engine failed: " + (q.stdout or "")[-500:]
+        if rbad or q.returncode != 0 or not summ:
+            R.violation({"property": pid, "kind": "the end of a connection removed the registry entry of a newer connection to the same SKI",
+                         "replay": "harness regrace -n %d -slow %d: HandleConnectionClosed(old) and registerConnection(new) released together on a real hub.Hub (plain), or the new connection registered while the application is inside RemoteSKIDisconnected (slow)" % (nr, nslow),
+                         "first": rbad[:3], "summary": summ, "engine_output": (q.stdout or "")[-1500:] if q.returncode != 0 else ""}, "regrace")
     if twin:
         R.violation({"property": pid, "kind": "C15 violated on the real hub", "replay": "harness hubstep -seed <seed> -only <scenario> with and without -canon; arguments are hex of the raw SKI string",
                      "shortest": twin[0]}, "twin")
